@@ -2,11 +2,19 @@ module verifharness
 
 go 1.25
 
-require github.com/codelaboratoryltd/bng v0.0.0
+require (
+	github.com/codelaboratoryltd/bng v0.0.0
+	go.uber.org/zap v1.27.0
+	layeh.com/radius v0.0.0-20231213012653-1006025d24f8
+)
 
 require (
+	github.com/cilium/ebpf v0.12.3 // indirect
+	github.com/google/uuid v1.6.0 // indirect
 	go.uber.org/multierr v1.11.0 // indirect
-	go.uber.org/zap v1.27.0 // indirect
+	golang.org/x/exp v0.0.0-20250718183923-645b1fa84792 // indirect
+	golang.org/x/sys v0.39.0 // indirect
+	golang.org/x/time v0.14.0 // indirect
 )
 
 replace github.com/codelaboratoryltd/bng => /repo
